@@ -1047,7 +1047,9 @@ pub fn run_c02(tier: &str, sink: &Sink) -> (EngA, AOut) {
             e.check_c02(&asides[i], &asides[j], false, sink, &c);
         }
     });
+    let big = c02_bigdigit_family(sink);
     let mut counters = snapshot(&c);
+    counters.insert("bigdigit_family_cells".into(), big);
     counters.insert("comparator_list_sides".into(), n as u64);
     counters.insert("comparator_list_texts_not_parsing".into(), (texts.len() - n) as u64);
     counters.insert("alternative_sides".into(), na as u64);
@@ -1058,9 +1060,66 @@ pub fn run_c02(tier: &str, sink: &Sink) -> (EngA, AOut) {
     (e, AOut { counters, samples, per_dev_kind: BTreeMap::new(), per_op: BTreeMap::new() })
 }
 
+/// C02 on tags that are all-digit but do not fit u64 (the parser keeps them as text), of different
+/// lengths, with and without leading zeros, next to one that fits and alphanumeric ones. No
+/// reference order is used: both comparators are tagged on the triple of every probed prerelease,
+/// so `a b` must be satisfied exactly by the versions that satisfy `a` and `b` (C02, both clauses),
+/// whatever the order among such identifiers is. (C02-9: an order that is not transitive there.)
+pub fn c02_bigdigit_family(sink: &Sink) -> u64 {
+    let tags = ["99999999999999999999", "100000000000000000000", "099999999999999999999", "18446744073709551615", "18446744073709551616", "5x", "1", "a", "9a", "1a"];
+    let mut comps: Vec<String> = vec![];
+    for t in tags {
+        for op in [">=", ">", "<", "<="] {
+            comps.push(format!("{}1.0.0-{}", op, t));
+        }
+    }
+    let mut vers: Vec<Version> = vec![];
+    for t in tags {
+        if let Ok(Ok(v)) = guarded(|| Version::parse(format!("1.0.0-{}", t))) {
+            vers.push(v);
+        }
+    }
+    for t in ["1.0.0", "0.9.0", "1.0.1"] {
+        vers.push(Version::parse(t).unwrap());
+    }
+    let parsed: Vec<Option<Range>> = comps.iter().map(|t| guarded(|| Range::parse(t)).ok().and_then(|r| r.ok())).collect();
+    let mut cells = 0u64;
+    for (i, a) in comps.iter().enumerate() {
+        for (j, b) in comps.iter().enumerate() {
+            crate::report::beat();
+            let (Some(ra), Some(rb)) = (&parsed[i], &parsed[j]) else { continue };
+            let text = format!("{} {}", a, b);
+            let case = json!({"engine":"A","kind":"bigdigit","a":a,"b":b});
+            let both: Vec<bool> = vers.iter().map(|v| ra.satisfies(v) && rb.satisfies(v)).collect();
+            cells += vers.len() as u64;
+            match guarded(|| Range::parse(&text)) {
+                Ok(Ok(r)) => {
+                    for (k, v) in vers.iter().enumerate() {
+                        let got = r.satisfies(v);
+                        if got != both[k] {
+                            sink.report(if is_pre(v) { "and-prerelease" } else { "and-release" }, format!("a={}|b={}|v={}", a, b, vtext(v)), case.clone(), format!("`{}` satisfied: {}", text, got), format!("{} (a: {}, b: {})", both[k], ra.satisfies(v), rb.satisfies(v)));
+                            break;
+                        }
+                    }
+                }
+                Ok(Err(_)) => {
+                    if let Some(k) = both.iter().position(|x| *x) {
+                        sink.report("empty", format!("a={}|b={}|v={}", a, b, vtext(&vers[k])), case.clone(), format!("`{}` does not parse", text), format!("{} satisfies both sides", vtext(&vers[k])));
+                    }
+                }
+                Err(m) => sink.report("empty", format!("a={}|b={}|v=-", a, b), case.clone(), format!("parse panics: {}", m), "returns".into()),
+            }
+        }
+    }
+    cells
+}
+
 fn replay_other(prop: &str, e: &EngA, case: &Value, sink: &Sink) {
     let c = ACounters::default();
     match (prop, case["kind"].as_str().unwrap_or("")) {
+        ("C02", "bigdigit") => {
+            let _ = c02_bigdigit_family(sink);
+        }
         ("C02", "pair") => {
             let (Some(a), Some(b)) = (e.side(case["a"].as_str().unwrap()), e.side(case["b"].as_str().unwrap())) else {
                 eprintln!("replay: a side does not parse");
@@ -1411,7 +1470,7 @@ pub fn oracle_crosscheck() -> Result<(u64, u64, u64, String), String> {
             // desugaring has no such case; excluded from the cross-check only.
             let caret_00 = devs.iter().any(|d| match d {
                 Dev::LeadZero { alt, simple, comp, .. } => match &prog[*alt] {
-                    Alt::Set(ss) => matches!(&ss[*simple], Simple::P(Op::Caret, p) if p.c[*comp] == Cmp::N(0)),
+                    Alt::Set(ss) => matches!(&ss[*simple], Simple::P(Op::Caret, p) if p.c.get(*comp) == Some(&Cmp::N(0))),
                     _ => false,
                 },
                 _ => false,
